@@ -365,3 +365,69 @@ package yqlib
 //@   props C11
 //@   requires node != nil
 //@   assume forall(i, 0, len(node.Content), node.Content[i] != nil)
+
+// ---------------------------------------------------------------------------------------------
+// context.go
+
+//@ pred validCtx(c) = c.MatchingNodes != nil && nodeList(c.MatchingNodes)
+
+//@ func (*Context).ChildContext
+//@   props C08 C10 C18 C11
+//@   requires n != nil
+//@   ensures result.MatchingNodes == results && result.DontAutoCreate == n.DontAutoCreate && result.datetimeLayout == n.datetimeLayout
+
+//@ func (*Context).SingleReadonlyChildContext
+//@   props C08 C11
+//@   requires n != nil
+//@   ensures @read-only result.DontAutoCreate
+//@   ensures @single result.MatchingNodes != nil && fresh(result.MatchingNodes) && len(result.MatchingNodes) == 1 && listAt(result.MatchingNodes, 0) == iface(candidate)
+
+//@ func (*Context).SingleChildContext
+//@   props C08 C11
+//@   requires n != nil
+//@   ensures @keeps-mode result.DontAutoCreate == n.DontAutoCreate
+//@   ensures @single result.MatchingNodes != nil && fresh(result.MatchingNodes) && len(result.MatchingNodes) == 1 && listAt(result.MatchingNodes, 0) == iface(candidate)
+
+//@ func (*Context).Clone
+//@   props C08 C11
+//@   requires n != nil
+//@   ensures result.MatchingNodes == n.MatchingNodes && result.DontAutoCreate == n.DontAutoCreate
+
+//@ func (*Context).ReadOnlyClone
+//@   props C08 C11
+//@   requires n != nil
+//@   ensures @read-only result.DontAutoCreate
+//@   ensures @same-nodes result.MatchingNodes == n.MatchingNodes
+
+//@ func (*Context).WritableClone
+//@   props C08 C11
+//@   requires n != nil
+//@   ensures !result.DontAutoCreate && result.MatchingNodes == n.MatchingNodes
+
+//@ func (*Context).GetDateTimeLayout
+//@   props C11
+//@   requires n != nil
+
+// ---------------------------------------------------------------------------------------------
+// data_tree_navigator.go: the dispatcher. Assumed (trusted) contract, established handler by handler:
+// every handler registered in operation.go for an operator of the read-only set is verified against
+// "readonly-if context.DontAutoCreate" (C08); the standing assumption of C08 is that the expression being
+// evaluated contains only operators of that set (the property's own hypothesis).
+
+//@ func (*dataTreeNavigator).GetMatchingNodes
+//@   trusted
+//@   requires validCtx(context)
+//@   readonly-if context.DontAutoCreate
+//@   ensures implies(result1 == nil, validCtx(result0))
+
+// ---------------------------------------------------------------------------------------------
+// operator_select.go
+
+//@ func selectOperator
+//@   props C08 C01 C11
+//@   requires validCtx(context) && expressionNode != nil
+//@   ensures implies(result1 == nil, validCtx(result0))
+//@   loop 1:
+//@     invariant nodeList(results) && fresh(results) && nodeList(context.MatchingNodes)
+//@   loop 2:
+//@     invariant nodeList(results) && fresh(results) && nodeList(context.MatchingNodes) && nodeList(rhs.MatchingNodes)
